@@ -24,8 +24,8 @@ failing type checking; a function whose comptime *expression* calls a Guppy func
 Operations: check(d), compile(d) (= compile_function) for every d.  No deduplication of
 states (no justified canonical state).  Bounds (each enumerated completely):
   quick     ALL sequences of length <= 2 over the 18 operations of the first 9
-            definitions (plain, busy, gen_caller, mono, use_struct, closure, ct_raises,
-            bad_type, py_call);
+            definitions (plain, busy, gen_caller, mono, use_struct, mono_closure_caller,
+            ct_raises, bad_type, py_call);
   thorough  ALL sequences of length <= 2 over all 22 operations, and ALL sequences of
             length <= 3 over the 14 operations of the 7-definition core pool CORE_DEFS.
 Forking compiler images costs ~65-75 ms per history node on the verification VM and does
@@ -184,9 +184,9 @@ def py_call(x: int) -> int:
 # ~65-75 ms and forking does not parallelise on the verification VM: ~13 nodes/s)
 POOL = [
     ("plain", "ok"), ("busy", "ok"), ("gen_caller", "ok"), ("mono", "compile-error"),
-    ("use_struct", "ok"), ("closure", "ok"), ("ct_raises", "compile-exc"),
+    ("use_struct", "ok"), ("mono_closure_caller", "ok"), ("ct_raises", "compile-exc"),
     ("bad_type", "check-error"), ("py_call", "check-error"),
-    ("ct", "ok"), ("mono_closure_caller", "ok"),
+    ("ct", "ok"), ("closure", "ok"),
 ]
 QUICK_DEFS = 9
 # definitions that are in the module (and reachable as dependencies) but are not
